@@ -919,7 +919,7 @@ func (vc *VC) trCall(x *ECall, env *Env) TV {
 		if !ok {
 			return vc.errTV("%s needs a channel", x.Fn)
 		}
-		f := vc.fifoFn()
+		f := vc.fifoFnFor(ct.Elem())
 		I := types.Typ[types.Int]
 		switch x.Fn {
 		case "sentat":
